@@ -426,7 +426,7 @@ class Context:
 		# The first path is for us
 		# Return true if this first bit evaluates, otherwise test the rest
 		try:
-			result = self.traversePath (allPaths[0], canCall = 0)
+			result = self.traversePath (allPaths[0].strip (), canCall = 0)
 			return self.true
 		except PathNotFoundException as e:
 			# Look at the rest of the paths.
@@ -449,7 +449,7 @@ class Context:
 		allPaths = expr.split ('|')
 		# The first path is for us
 		try:
-			return self.traversePath (allPaths[0], canCall = 0)
+			return self.traversePath (allPaths[0].strip (), canCall = 0)
 		except PathNotFoundException as e:
 			# Try the rest of the paths.
 			pass
